@@ -40,7 +40,7 @@ def to_rows(vals):
     for v in vals:
         k = v[0]
         sp = STR_POS.get(k, (1,))
-        if k in ('enc', 'ench', 'encp', 'str', 'us'):
+        if k in ('enc', 'ench', 'encp', 'str', 'us', 'dn', 'sp', 'uso', 'gn'):
             sp = ()
         row = [k]
         for i, x in enumerate(v[1:], 1):
@@ -51,23 +51,75 @@ def to_rows(vals):
                 row.extend(x)
             else:
                 row.append(x)
-        if k == 'gs':
-            continue
+        if k in ('gs', 'gcz'):
+            continue                # classified lines for the tool stage only
         if k == 'gc':
             row = row[:-1]          # the spec's class of the line is for the tool stage only
         rows.append(row)
     return rows
 
 
-GC_MODES = [('g', 0, False, True), ('g', 2, False, True), ('g', -3, False, True), ('d', 0, False, True), ('d', 2, False, True),
-            (':', -1, False, True), (':', 3, False, True), ('u', 0, False, True), ('u', 3, False, True), ('m', 0, False, True),
-            ('m', -3, False, True), ('g', 1, True, True), ('d', 1, True, True), ('u', 0, False, False)]      # (mode, -p, -w, not -n)
-GS_MODES = [('dir', 0), ('dir', 100), ('dir', 58), ('inv', 0)]
+def GC(mode, prec, w=False, c=True, cd=0, z=0, zn='', istr=0, l=False):
+    """One GeoConvert configuration = the Reset record of its runs (LineText.tla, GCLine).  istr: the lines are given with
+    --input-string, separated by this byte (59: the default separator, otherwise --line-separator is passed too)."""
+    return dict(e='Reset', tool='GeoConvert', mode=mode, prec=prec, w=w, c=c, dms=0, cd=cd, z=z, zn=zn, istr=istr, l=l, full=False)
 
 
-def run_tool(exe, args, lines):
-    """Feed the lines to the tool; returns (list of output lines, exit status, signal)."""
+GC_MODES = [GC('g', 0), GC('g', 2), GC('g', -3), GC('d', 0), GC('d', 2), GC(':', -1), GC(':', 3), GC('u', 0), GC('u', 3), GC('m', 0),
+            GC('m', -3), GC('g', 1, w=True), GC('d', 1, w=True), GC('u', 0, c=False)]
+# options that the first version did not exercise: --comment-delimiter, --input-string / --line-separator, -z zone[hemisphere]
+GC_MORE = [GC('g', 0, cd=35), GC(':', 1, w=True, cd=35), GC('u', 1, cd=35),
+           GC('g', 0, istr=59), GC('d', 0, istr=124), GC('u', 0, istr=37, cd=35),
+           GC('u', 2, z=32, zn='n'), GC('u', 0, z=31), GC('u', 1, z=32, zn='s', l=True), GC('g', 1, z=32), GC('m', 0, z=31), GC('u', 1, l=True)]
+
+
+def GS(mode, dms=0, prec=2, w=False, cd=0, arc=False, full=False):
+    """One GeodSolve configuration (LineText.tla, GSLine); mode 'line' is -L 10 20 30."""
+    return dict(e='Reset', tool='GeodSolve', mode=mode, prec=prec, w=w, c=True, dms=dms, cd=cd, arc=arc, z=0, zn='', istr=0, l=False, full=full,
+                lat1=[49, 48], lon1=[50, 48], azi1=[51, 48])
+
+
+GS_MODES = [GS('dir'), GS('dir', 100), GS('dir', 58), GS('inv')]
+GS_MORE = [GS('dir', w=True), GS('inv', 100, w=True), GS('dir', arc=True), GS('dir', 58, arc=True, cd=35), GS('line'), GS('line', 100, arc=True),
+           GS('inv', cd=35), GS('dir', prec=0, cd=35), GS('inv', prec=1, full=True), GS('dir', 100, prec=0, full=True, w=True), GS('dir', 58, full=True, arc=True), GS('inv', 58, arc=True)]
+
+
+def old_tool_args(c):
+    """Command line of a GeoConvert / GeodSolve run."""
+    a = []
+    if c['tool'] == 'GeoConvert':
+        a += ['-' + c['mode'], '-p', str(c['prec'])] + (['-w'] if c['w'] else []) + ([] if c['c'] else ['-n']) + (['-l'] if c['l'] else [])
+        if c['z']:
+            a += ['-z', str(c['z']) + c['zn']]
+    else:
+        a += (['-w'] if c['w'] else [])       # before -L: the position of the line is read with the order in force
+        a += {'dir': [], 'inv': ['-i'], 'line': ['-L', '10', '20', '30']}[c['mode']]
+        a += ['-p', str(c['prec'])] + {0: [], 100: ['-d'], 58: ['-:']}[c['dms']] + (['-a'] if c['arc'] else []) + (['-f'] if c['full'] else [])
+    if c['cd']:
+        a += ['--comment-delimiter', chr(c['cd'])]
+    return a
+
+
+COMMENTS = [b'# c', b'#', b'#  two  words ', b'# 1 2 3', b'#x#y']
+
+
+def with_comments(rng, lines, cd):
+    """Appends comments to about half of the lines (the class of a line does not depend on the comment: LineText.tla, Body)."""
+    out = []
+    for ln in lines:
+        if bytes([cd]) not in ln and rng.random() < 0.5:
+            ln = ln + rng.choice([b' ', b'', b'\t']) + rng.choice(COMMENTS)
+        out.append(ln)
+    return out
+
+
+def run_tool(exe, args, lines, istr=0):
+    """Feed the lines to the tool (on standard input, or as --input-string with the separator istr); returns (list of output
+    lines, exit status, signal)."""
     data = b''.join(l + b'\n' for l in lines)
+    if istr:
+        args = args + ['--input-string', bytes([istr]).join(lines)] + ([] if istr == 59 else ['--line-separator', chr(istr)])
+        data = b''
     try:
         p = subprocess.run(['timeout', '20', exe] + args, input=data, stdout=subprocess.PIPE, stderr=subprocess.PIPE)
     except OSError as e:
@@ -91,7 +143,7 @@ def R(tool, mode, prec=3, proj='', w=False, cd=0, dms=0, c1=0, c2=0, l0=0, rt=Fa
 
 NEW_RUNS = [
     R(RS, 'dir'), R(RS, 'dir', 0, dms=100), R(RS, 'dir', 2, dms=58, w=True), R(RS, 'dir', 3, cd=35), R(RS, 'dir', 1, proj='E'),
-    R(RS, 'inv'), R(RS, 'inv', 1, dms=100, cd=35), R(RS, 'inv', 0, w=True),
+    R(RS, 'inv'), R(RS, 'inv', 1, dms=100, cd=35), R(RS, 'inv', 0, w=True), R(RS, 'line', 3, w=True, c1=10, c2=20), R(RS, 'line', 1, dms=58, cd=35, c1=10, c2=20),
     R(TM, 'fwd'), R(TM, 'fwd', 0, proj='s', w=True), R(TM, 'fwd', 6, proj='t', cd=35, l0=9), R(TM, 'rev'), R(TM, 'rev', 0, proj='s', cd=35),
     R(TM, 'rev', 2, w=True),
     R(CP, 'fwd', 3, proj='c', c1=40, c2=60), R(CP, 'fwd', 2, proj='a', c1=40, c2=60, w=True, l0=-10), R(CP, 'fwd', 1, proj='c', c1=-30, c2=-30, cd=35),
@@ -115,6 +167,7 @@ def tool_args(c):
     t, a = c['tool'], []
     if t == RS:
         a += (['-i'] if c['mode'] == 'inv' else []) + (['-E'] if c['proj'] == 'E' else [])
+        a += ['-L', str(c['c1']), str(c['c2']), '30'] if c['mode'] == 'line' else []      # -w comes later: the position is read latitude first
     elif t == TM:
         a += (['-' + c['proj']] if c['proj'] else []) + ['-l', str(c['l0'])]
     elif t == CP:
@@ -149,7 +202,8 @@ def more_tool_jobs(ctx, seqs, pseqs, tlvals):
     nmix = 2 if quick else 12
 
     def pool(c, cls, mode=None):
-        k = (c['tool'], {'line': 'poly'}.get(mode or c['mode'], mode or c['mode']), c['w'], c['cd'], cls)
+        m = mode or c['mode']
+        k = (c['tool'], 'poly' if c['tool'] == PL else m, c['w'], c['cd'], cls)
         if len(pools.get(k, [])) < (1 if cls == 'any' else 5):
             raise vlib.FrameworkError('tool stage: line pool too small: %s %d' % (k, len(pools.get(k, []))))
         return pools[k]
@@ -169,7 +223,11 @@ def more_tool_jobs(ctx, seqs, pseqs, tlvals):
         if quick:               # a seeded sample of the patterns per configuration (every pattern is used by several configurations)
             pats = rng.sample(pats, 12)
         for pat in pats:
-            jobs.append((c, exes[c['tool']], tool_args(c), [rng.choice(bad if b else good) for b in pat], None))
+            if c['tool'] == PL:     # "a blank line" is the first terminator the man page names: four in ten terminators are blank
+                lines = [(b'' if rng.random() < 0.4 else rng.choice(bad)) if b else rng.choice(good) for b in pat]
+            else:
+                lines = [rng.choice(bad if b else good) for b in pat]
+            jobs.append((c, exes[c['tool']], tool_args(c), lines, None))
         for lines in mixes(c, 0.3, 0.1):
             jobs.append((c, exes[c['tool']], tool_args(c), lines, None))
     for c in RT_RUNS:
@@ -199,7 +257,7 @@ def tool_models(ctx):
         return res
 
     def gen_pools():
-        cfg = ctx.cfg('MC_ToolLines', 'INIT Init\nNEXT Next\nCONSTANTS NChunks = 15 Thin = %d\nINVARIANTS ClassInv Emit\nCHECK_DEADLOCK FALSE\n' % (4 if quick else 1))
+        cfg = ctx.cfg('MC_ToolLines', 'INIT Init\nNEXT Next\nCONSTANTS NChunks = 16 Thin = %d\nINVARIANTS ClassInv Emit\nCHECK_DEADLOCK FALSE\n' % (4 if quick else 1))
         return ctx.generate('MC_ToolLines', cfg, workers=4 if quick else 8, timeout=1200, heap='2g')
     with cf.ThreadPoolExecutor(3) as ex:
         fseq, fpseq, fpool = ex.submit(gen_seqs, 'line'), ex.submit(gen_seqs, 'poly'), ex.submit(gen_pools)
@@ -215,37 +273,54 @@ def tool_stage(ctx, vals, models):
     for v in vals:
         if v[0] == 'gc' and 10 not in v[1] and v[2] is True and v[3] is False:
             pools.setdefault(('gc', v[4]), []).append(bytes(v[1]))
+        elif v[0] == 'gcz' and 10 not in v[1]:
+            pools.setdefault(('gcz', v[2], v[3]), []).append(bytes(v[1]))
         elif v[0] == 'gs' and 10 not in v[1]:
-            pools.setdefault(('gs', v[2], v[3]), []).append(bytes(v[1]))
+            pools.setdefault(('gs', v[2], v[3], v[4], v[5]), []).append(bytes(v[1]))      # mode, w, arc, class
     gc_good = {'g': pools.get(('gc', 'geo'), []) + pools.get(('gc', 'utm'), []) + pools.get(('gc', 'mgrs'), []),
                'm': pools.get(('gc', 'geo'), []) + pools.get(('gc', 'mgrs'), [])}
     gc_bad = pools.get(('gc', 'throw'), [])
-    if min(len(gc_good['g']), len(gc_good['m']), len(gc_bad), len(pools.get(('gs', 'dir', 'good'), [])), len(pools.get(('gs', 'dir', 'bad'), [])),
-           len(pools.get(('gs', 'inv', 'good'), [])), len(pools.get(('gs', 'inv', 'bad'), []))) < 5:
+    need = [gc_good['g'], gc_good['m'], gc_bad] + [pools.get(('gcz', z, k), []) for z in (31, 32) for k in ('good', 'bad')]
+    need += [pools.get(('gs', c['mode'], c['w'], False if c['mode'] == 'inv' else c['arc'], k), []) for c in GS_MODES + GS_MORE for k in ('good', 'bad')]
+    if min(len(x) for x in need) < 5:
         raise vlib.FrameworkError('tool stage: line pools too small: %s' % {k: len(v) for k, v in pools.items()})
     rng = ctx.rng
     geoconvert = vlib.build_tool('GeoConvert')
     geodsolve = vlib.build_tool('GeodSolve')
     jobs = []          # (header record, exe, args, lines)
     extra = [[rng.random() < 0.3 for _ in range(40)] for _ in range(2 if quick else 20)]
-    for mode, prec, w, c in GC_MODES:
-        good = gc_good['m' if mode == 'm' else 'g']
-        for pat in seqs + extra:
-            lines = [rng.choice(gc_bad if b else good) for b in pat]
-            hdr = dict(e='Reset', tool='GeoConvert', mode=mode, prec=prec, w=w, c=c, dms=0)
-            jobs.append((hdr, geoconvert, ['-' + mode, '-p', str(prec)] + (['-w'] if w else []) + ([] if c else ['-n']), lines, None))
-    for mode, dms in GS_MODES:
-        good, bad = pools[('gs', mode, 'good')], pools[('gs', mode, 'bad')]
-        for pat in seqs + extra:
-            lines = [rng.choice(bad if b else good) for b in pat]
-            hdr = dict(e='Reset', tool='GeodSolve', mode=mode, prec=2, w=False, c=True, dms=dms)
-            args = (['-i'] if mode == 'inv' else []) + ['-p', '2'] + ({0: [], 100: ['-d'], 58: ['-:']}[dms])
-            jobs.append((hdr, geodsolve, args, lines, None))
+
+    def patterns(first):
+        """Every pattern for the configurations of the first version; for the added ones a seeded sample in the quick tier."""
+        return seqs + extra if first or not quick else rng.sample(seqs, 10) + extra[:1]
+
+    def realise(c, pat, good, bad):
+        lines = [rng.choice(bad if b else good) for b in pat]
+        if c['istr']:       # --input-string: the lines are the non-empty pieces between separators
+            lines = [ln for ln in lines if ln.strip(b' \t\r\f\v') and bytes([c['istr']]) not in ln and 0 not in ln]
+        if c['cd']:
+            lines = with_comments(rng, lines, c['cd'])
+        return lines
+    for c in GC_MODES + GC_MORE:
+        if c['z']:
+            good, bad = pools[('gcz', c['z'], 'good')], pools[('gcz', c['z'], 'bad')] + gc_bad
+        else:
+            good, bad = gc_good['m' if c['mode'] == 'm' else 'g'], gc_bad
+        for pat in patterns(c in GC_MODES):
+            lines = realise(c, pat, good, bad)
+            if c['istr'] and not lines:
+                continue
+            jobs.append((c, geoconvert, old_tool_args(c), lines, None))
+    for c in GS_MODES + GS_MORE:
+        pk = ('gs', c['mode'], c['w'], False if c['mode'] == 'inv' else c['arc'])
+        good, bad = pools[pk + ('good',)], pools[pk + ('bad',)]
+        for pat in patterns(c in GS_MODES):
+            jobs.append((c, geodsolve, old_tool_args(c), realise(c, pat, good, bad), None))
     jobs += more_tool_jobs(ctx, seqs, pseqs, tlvals)
 
     def one(job):
         hdr, exe, args, lines, chain = job
-        out, status, sig = run_tool(exe, args, lines)
+        out, status, sig = run_tool(exe, args, lines, hdr.get('istr', 0))
         recs = [hdr]
         if hdr['tool'] == 'Planimeter':
             recs += [dict(e='vtx', inp=list(ln)) for ln in lines]
@@ -296,7 +371,7 @@ def mc_cfg(part, quick):
     else:
         c = dict(da=(4, 5, 6, 1), db=(0, 0, 0, 3), uni=(0, 0, 0, 1), enc=(0, 0, 0, 1), num=(0, 0, 0, 1), gc=(0, 0, 0, 1))[part]
     return ('INIT Init\nNEXT Next\nCONSTANTS Part = "%s" NChunks = 64 LenA = %d LenB = %d LenC = %d Thin = %d\n'
-            'INVARIANTS DecInv LLInv EncInv NumInv GcInv Emit\nCHECK_DEADLOCK FALSE\n' % ((part,) + c))
+            'INVARIANTS DecInv LLInv EncInv NumInv GcInv OvlInv GcvInv Emit\nCHECK_DEADLOCK FALSE\n' % ((part,) + c))
 
 
 PARTS = ['da', 'db', 'uni', 'enc', 'num', 'gc']
